@@ -1,6 +1,7 @@
 package readline
 
 import (
+	"sort"
 	"strings"
 
 	"github.com/reeflective/readline/inputrc"
@@ -34,20 +35,15 @@ func ZZ_C19_Dump() {
 	var vbool bool
 	var vint int
 	if kind == "var" {
-		// values of the three variable types; the string one must be a value the parser can
-		// have produced ("configurations reachable by parsing"): printable ASCII that parses
-		// back to itself from a set directive
+		// values of the three variable types; the string is printable ASCII without blanks,
+		// quotes and '#' (an unquoted value cannot hold those)
 		for _, r := range body {
-			zzverif.Assume(r > 0x20 && r < 0x7f)
+			zzverif.Assume(r > 0x20 && r < 0x7f && r != '#' && r != '"' && r != '\'')
 		}
-		pre := inputrc.NewConfig()
-		_ = inputrc.ParseBytes([]byte("set comment-begin "+string(body)+"\n"), pre)
-		got, _ := pre.Vars["comment-begin"].(string)
-		zzverif.Assume(got == string(body))
 		vbool = zzverif.Bool("vbool")
-		vint = zzverif.IntRange("vint", -1, 12)
+		vint = zzverif.IntRange("vint", -1, 120)
 	}
-	dumpCmd := map[string]string{"bind": "dump-functions", "macro": "dump-macros", "var": "dump-variables"}[kind]
+	dumpCmd := map[string]string{"bind": "dump-functions", "macro": "dump-macros", "var": "dump-variables", "defaults": "dump-variables"}[kind]
 	const dumpKey, argKeys = "\x07", "\x1b1"
 	if n > 0 {
 		// the symbolic binding must not capture the keys that run the dump: ESC 1 (which is
@@ -102,7 +98,7 @@ func ZZ_C19_Dump() {
 	var lines []string
 	for _, l := range strings.Split(printed, "\n") {
 		l = strings.TrimSuffix(l, "\r")
-		if strings.HasPrefix(l, "\"") || (kind == "var" && strings.HasPrefix(l, "set ")) {
+		if strings.HasPrefix(l, "\"") || ((kind == "var" || kind == "defaults") && strings.HasPrefix(l, "set ")) {
 			lines = append(lines, l)
 		}
 	}
@@ -112,6 +108,42 @@ func ZZ_C19_Dump() {
 	zzverif.Reach("dumped")
 
 	cfg := inputrc.NewConfig()
+	if kind == "defaults" {
+		// every variable of the default configuration: dump, change, parse back, compare
+		orig := map[string]interface{}{}
+		for name, v := range rl.Config.Vars {
+			orig[name] = v
+		}
+		for name, v := range orig {
+			switch x := v.(type) {
+			case bool:
+				rl.Config.Vars[name] = !x
+			case int:
+				rl.Config.Vars[name] = x + 1
+			case string:
+				rl.Config.Vars[name] = x + "zz"
+			}
+		}
+		_ = inputrc.ParseBytes([]byte(text), rl.Config)
+		var names, failing []string
+		for name := range orig {
+			// "set keymap" selects the keymap of the bindings that follow (parser state by
+			// design), it does not set a variable
+			if name != "keymap" {
+				names = append(names, name)
+			}
+		}
+		sort.Strings(names)
+		for _, name := range names {
+			if rl.Config.Vars[name] != orig[name] {
+				failing = append(failing, name)
+			}
+		}
+		// one label naming the variables that do not come back, so that a listed finding is
+		// about exactly these
+		zzverif.Assert(len(failing) == 0, "default-variables-parse-back/failing="+strings.Join(failing, ","))
+		return
+	}
 	if kind == "var" {
 		// variables are read back into the running configuration (which knows their types),
 		// after the three values have been changed
